@@ -73,7 +73,8 @@ def meta(tier):
                 'schedule and every schedule with one (thorough: two) deviating choice point (all permutations for sets of <=4 elements, '
                 'reversal and every rotation above) must produce identical status, image and pretty print; the default schedule is '
                 'replayed twice. Part B: the same programs x 4 formats through the real CLI for hash seeds 0..3 (thorough 0..15) x 2 (thorough 3) '
-                'working directories x every permutation of the include directories x {bare, cluttered} environment; '
+                'working directories x every permutation of the include directories x {bare, cluttered} environment, and every combination of spellings of the include '
+                'directories (relative, ./, through a detour, the same directory twice under two spellings); '
                 'non-trivial = execution whose schedule or environment differs from the reference execution; '
                 'states = distinct (program, format, number of choice points); transitions = executions',
         'bounds': {'programs': [p[0] for p in PROGRAMS], 'hash_seeds': 4 if q else 16, 'deviating_choice_points': 1 if q else 2},
@@ -186,6 +187,50 @@ def shard(acc, tier, idx, n):
                     acc.violation([ref_case, case], spec, diff_msg(ref, out, f'{name} [{fmt}] seed={seed} cwd={cwd} -I order={perm} env={envname}'),
                                   [ref, out])
                 acc.judge(clause='end-to-end', nontrivial_key=(pi, fmt, seed, cwd, perm, envname))
+    spellings(acc, idx, n, ctr, q)
+
+
+def spellings(acc, idx, n, ctr0, q):
+    """The same include directories written in different ways (relative to the working directory, with ./ or a detour,
+    the same directory twice under two spellings in either order) must give the same outputs as the absolute paths."""
+    ctr = ctr0
+    variants = {
+        'd1': ['=d1', '=./d1', '=d2/../d1'],
+        'd2': ['=d2', '=./d2'],
+        'd3': ['=d3'],
+    }
+    for pi, (name, files, incdirs) in enumerate(PROGRAMS):
+        if not incdirs:
+            continue
+        for fmt in (['listing', 'minhex'] if q else FORMATS_B):
+            ref_case = Case(ISA, files, incdirs=incdirs, pretty=fmt)
+            ref = None
+            combos = []
+            for choice in itertools.product(*[variants[d] for d in incdirs]):
+                combos.append(tuple(choice))
+                combos.append(tuple(reversed(choice)))
+            # the same directory twice under two spellings, in both orders
+            first = incdirs[0]
+            for a, b in itertools.permutations(variants[first] + [first], 2):
+                combos.append((a, b) + tuple(incdirs[1:]))
+            for combo in dict.fromkeys(combos):
+                ctr += 1
+                if ctr % n != idx:
+                    continue
+                if ref is None:
+                    ref = world.run_cli(ref_case, env_extra={'PYTHONHASHSEED': '0'}, env_base=BARE)
+                    acc.count_eval(1, ref.status)
+                # the include directories must exist: create them through an absolute twin listed in the files
+                case = Case(ISA, dict(files, **{f'{d}/.keep': '' for d in ('d1', 'd2', 'd3')}), incdirs=combo, pretty=fmt)
+                out = world.run_cli(case, env_extra={'PYTHONHASHSEED': '1'}, cwd='<work>', env_base=BARE)
+                acc.count_eval(1, out.status)
+                acc.transition()
+                if not same(ref, out):
+                    spec = {'type': 'e2e', 'seed': 1, 'cwd': '<work>', 'env': 'bare'}
+                    acc.violation([Case(ISA, dict(files, **{f'{d}/.keep': '' for d in ('d1', 'd2', 'd3')}), incdirs=incdirs, pretty=fmt), case],
+                                  spec, diff_msg(ref, out, f'{name} [{fmt}] include directories written as {combo}'), [ref, out])
+                acc.judge(clause='end-to-end', nontrivial_key=(pi, fmt, 'spelling', combo))
+    return ctr
 
 
 # ---- confirmation / replay ------------------------------------------------------------------------------------------
